@@ -1051,11 +1051,33 @@ func (cm *codecModel) checkReadBuffer(r *Report, rule string) {
 	}
 	key := "ReadPacket:read-buffer"
 	var readCall ssa.CallInstruction
-	allInstrs(f, func(i ssa.Instruction) {
-		if ci, ok := i.(ssa.CallInstruction); ok && ci.Common().IsInvoke() && ci.Common().Method.Name() == "Read" {
-			readCall = ci
+	// in ReadPacket itself or in a helper of the package it hands its reader to
+	var find func(g *ssa.Function, d int)
+	seenF := map[*ssa.Function]bool{}
+	find = func(g *ssa.Function, d int) {
+		if seenF[g] || d > 2 || g.Blocks == nil {
+			return
 		}
-	})
+		seenF[g] = true
+		allInstrs(g, func(i ssa.Instruction) {
+			ci, ok := i.(ssa.CallInstruction)
+			if !ok {
+				return
+			}
+			if ci.Common().IsInvoke() && ci.Common().Method.Name() == "Read" {
+				readCall = ci
+				return
+			}
+			if h := staticCallee(ci.Common()); h != nil && fnPkgPath(h) == pkPackets1 {
+				for _, a := range ci.Common().Args {
+					if typeIs(a.Type(), "io", "Reader") {
+						find(h, d+1)
+					}
+				}
+			}
+		})
+	}
+	find(f, 0)
 	if readCall == nil {
 		r.undecided(rule, key, c.pos(f.Pos()), "no Read call on the connection found in ReadPacket")
 		return
